@@ -208,3 +208,88 @@ class Session:
             self.res.validated += self.mode.validated
             self.res.paths += 1
         return r
+
+
+# ------------------------------------------------------------------------------ compositional cut through bit packing
+BITOPS = ("and", "or", "xor", "shl", "shr", "not")
+
+
+def unpack_lemma(ctx, roots, bits, res=None, clause="unpack(pack(code))==code"):
+    """Sub-byte codes travel through pack -> unpack (shifts/masks) before they are dequantized.  RERR cannot
+    interpret bit operations, so the path is cut compositionally, every step decided by the solver on the real terms:
+      range lemma: each packed leaf L = cast(uint8, F) satisfies L < 2^bits for EVERY value of the floats F is
+                   clamped from (BIT, floats below the clamp cut to fresh variables);
+      field lemma: each maximal bit-op subterm U below `roots` equals one leaf L for every leaf value < 2^bits (BIT/BV).
+    Returns {U.uid: L} (to be used with subst), or raises Inconclusive via res when a lemma is not proved."""
+    from . import bit as bitmod
+
+    order = tm.topo(list(roots))
+    isbit = lambda t: t.dt == torch.uint8 and t.op in BITOPS  # noqa
+    users = {}
+    for t in order:
+        for a in t.args:
+            if isinstance(a, T):
+                users.setdefault(a.uid, []).append(t)
+    maximal = [t for t in order if isbit(t) and any(not isbit(u) for u in users.get(t.uid, [])) or (isbit(t) and t in roots)]
+    mapping = {}
+    if not maximal:
+        return mapping
+    # leaves of all bit-op cones
+    leaves = {}
+    for u in maximal:
+        for t in tm.topo([u]):
+            if not isbit(t) and t.op != "const" and t.dt == torch.uint8:
+                leaves[t.uid] = t
+    leaves = list(leaves.values())
+    ok = True
+    # range lemma
+    for L in leaves:
+        if L.op == "var":
+            continue
+        floats = [t for t in tm.topo([L]) if tm.is_float(t.dt) and t.op not in ("min", "max", "const", "cast") or (t.op == "cast" and tm.is_float(t.dt) and not tm.is_float(t.args[0].dt))]
+        # cut at the arguments of the clamp (maximal float subterms that are not min/max/const)
+        tops = []
+        seen = set()
+
+        def walk(t):
+            if t.uid in seen:
+                return
+            seen.add(t.uid)
+            if t.op in ("min", "max") and tm.is_float(t.dt) or (t.op == "cast" and t is L):
+                for a in t.args:
+                    if isinstance(a, T):
+                        walk(a)
+            elif t.op != "const":
+                tops.append(t)
+
+        walk(L)
+        (Lc,), _, _ = cut(ctx, [L], tops, "rng")
+        b = bitmod.Bit(ctx)
+        v, secs, _ = solve(b.side + [z3.UGE(b.tr(Lc), 2**bits)], 60)
+        if res is not None:
+            res.query(clause, "BIT", v, secs, sub="range-lemma")
+        ok = ok and v == "unsat"
+    # field lemma
+    cutU, cmap, back = cut(ctx, maximal, leaves, "leaf")
+    b = bitmod.Bit(ctx)
+    pre = [z3.ULT(b.tr(cmap[L.uid]), 2**bits) for L in leaves]
+    for U, Uc in zip(maximal, cutU):
+        found = None
+        cands = sorted(leaves, key=lambda L: L.cv != U.cv)
+        for L in cands:
+            if L.cv != U.cv:
+                break
+            v, secs, _ = solve(pre + [b.tr(Uc) != b.tr(cmap[L.uid])], 60)
+            if v == "unsat":
+                found = L
+                if res is not None:
+                    res.query(clause, "BIT", v, secs, sub="field-lemma")
+                break
+        if found is None:
+            ok = False
+            if res is not None:
+                res.query(clause, "BIT", "unknown", 0.0, sub="field-lemma", note=f"no leaf proved equal to {U.pretty(3)}")
+        else:
+            # the leaf may itself contain earlier (inner) bit-op cones: close the mapping under itself
+            mapping[U.uid] = subst(ctx, [found], mapping)[0] if mapping else found
+    return mapping if ok else None
